@@ -274,6 +274,16 @@ theorem addr_lawful : Lawful addr := lawful_addr
 theorem inventory_lawful : Lawful inventory := lawful_inventory
 theorem inv_getdata_notfound_lawful : Lawful inv := lawful_inv
 theorem getblocks_getheaders_lawful : Lawful locator := lawful_locator
+/-- `SendCmpct`: the announce octet is 0 or 1, nothing else is accepted -/
+theorem sendcmpct_lawful : Lawful sendCmpct := lawful_sendCmpct
+theorem sendcmpct_valid_iff (t : Nat × Nat) : sendCmpct.valid t ↔ t.1 ≤ 1 ∧ t.2 < 2 ^ 64 := sendCmpct_valid t
+theorem getcfilters_getcfheaders_lawful : Lawful filterRange := lawful_filterRange
+theorem cfilter_lawful : Lawful cfilter := lawful_cfilter
+theorem cfheaders_lawful : Lawful cfheaders := lawful_cfheaders
+theorem getcfcheckpt_lawful : Lawful getcfcheckpt := lawful_getcfcheckpt
+theorem cfcheckpt_lawful : Lawful cfcheckpt := lawful_cfcheckpt
+example : sendCmpct.parseAll [2, 1, 0, 0, 0, 0, 0, 0, 0] = .error .badFlag
+    ∧ sendCmpct.parseAll [1, 2, 0, 0, 0, 0, 0, 0, 0] = .ok (1, 2) := by decide
 /-- `Headers`: each header is followed by a transaction count that is exactly `00` -/
 theorem headers_lawful : Lawful headers := lawful_headers
 /-- `Version` on octets: accepted iff the serialization of a valid body closed by nothing, `00` or `01`;
